@@ -25,7 +25,7 @@ MANIFEST = {
                  'metamorphic stand-in on the real pipeline in four representations (rotated cell, translated origin through the faces, permuted atoms, permuted sites)',
 }
 UNITS = ['unit_geometry', 'unit_stage_vcs', 'unit_stage_contracts_a', 'unit_stage_contracts_b', 'unit_stage_contracts_c']
-BOUNDED = ['bounded_metamorphic']
+BOUNDED = ['bounded_metamorphic', 'bounded_purity']
 META = {'clauses': {'rotation': 'P (lemmas + stage VC) + B', 'translation through faces': 'P + B', 'atom / site permutation': 'P (states) + B (pipeline)', 'grids rolled by the shift': 'P (bin lemma + count lemma) + B',
                     'path costs': 'B only'},
         'not_decided': ['optimal-path cost invariance (graph isomorphism under rolling): metamorphic stand-in only', 'float-level equality under rotation (A-REAL)']}
@@ -532,3 +532,10 @@ def bounded_metamorphic(tier, seed):
         if r['reproduced']:
             st.violation('metamorphic', r['detail'], 'verif.props.c07:replay_metamorphic', inp)
     return st.result()
+
+
+# generic purity stand-in (arguments unchanged, second call equal, fresh call equal) over this property's API calls
+from verif.native.purity import make_bounded as _make_purity  # noqa: E402
+from verif.props.purity_reg import REG as _PURITY_REG  # noqa: E402
+PURITY = _PURITY_REG['C07']
+bounded_purity = _make_purity('C07', PURITY)
